@@ -237,6 +237,21 @@ def _rand_value(rr, depth=0):
     return [[1, 2], [3]]
 
 
+def _canon_json(text):
+    """parsed JSON with the element order of encoded SETS removed: the order in which a set is written is not information (it
+    follows the hash seed of the process for strings), so two texts that differ only there describe the same object"""
+    def walk(o):
+        if isinstance(o, dict):
+            o = {k: walk(v) for k, v in o.items()}
+            if o.get("_is_set") is True and isinstance(o.get("data"), list):
+                o["data"] = sorted(o["data"], key=repr)
+            return o
+        if isinstance(o, list):
+            return [walk(v) for v in o]
+        return o
+    return walk(json.loads(text))
+
+
 def _clean(v):
     # nested lists may not contain sets/arrays for == on lists to be meaningful
     if isinstance(v, list):
@@ -363,7 +378,7 @@ def ob_native():
                 if o2.unpack_index != o.unpack_index or o2._unpacked_parameters_set != o._unpacked_parameters_set or \
                         (o._original_sim_params is None) != (o2._original_sim_params is None):
                     return {label: "marks / index / original lost"}
-            if o2.to_json() != cls.from_json(o2.to_json()).to_json():
+            if _canon_json(o2.to_json()) != _canon_json(cls.from_json(o2.to_json()).to_json()):
                 return {label: "save-load-save not idempotent"}
             o3 = cls.from_dict(o.to_dict())
             if not (o == o3):
@@ -386,7 +401,7 @@ def ob_native():
                         return {"file round trip (%s): parameter %r changed" % (ext or "none", k): [repr(v)[:150], repr(s2.params.parameters[k])[:150]]}
                 fn2 = s2.save_to_file(os.path.join(tmp, "again" + (ext or ".pickle")))
                 if ext == ".json" and open(fn2).read() != open(fn).read().replace(s.original_filename, s2.original_filename):
-                    a, b = json.loads(open(fn).read()), json.loads(open(fn2).read())
+                    a, b = _canon_json(open(fn).read()), _canon_json(open(fn2).read())
                     a.pop("original_filename"), b.pop("original_filename")
                     if a != b:
                         return {"save(load(save)) differs from save (json)": True}
